@@ -227,7 +227,7 @@ def _run_history(cfg, rec):
                               z3.BoolVal(ok) if ok else z3.And([a == b for a, b in zip(pen, single[name])] + [z3.BoolVal(len(pen) == len(single[name]))]),
                               "history:state-dependent-penalty"))
             rec.check_all(ctx, items, wit)
-            rec.sample({"schedule": schedule, "fault_between": cfg["fault"], "penalty_entries": len(seq[0][1] or []),
+            rec.want_sample() and rec.sample({"schedule": schedule, "fault_between": cfg["fault"], "penalty_entries": len(seq[0][1] or []),
                         "first_entry": str(seq[0][1][0])[:100] if seq[0][1] else None})
             rec.validate("history", dict(c02.DefaultEnv()), {"ok": True})
 
@@ -290,7 +290,7 @@ def _run_inputs(cfg, rec):
             items.append(("optimising the same scheme twice (same optimiser schedule) gives identical results",
                           z3.BoolVal(all(same)), "inputs:non-deterministic"))
             rec.check_all(ctx, items, wit)
-            rec.sample({"changes": d1 + d2, "identical_results": all(same)})
+            rec.want_sample() and rec.sample({"changes": d1 + d2, "identical_results": all(same)})
             rec.validate("inputs", dict(c02.DefaultEnv()), {"ok": True})
 
 
@@ -325,7 +325,7 @@ def _run_race(cfg, rec):
         else:
             rec.stats.prove["unsat"] += 1
             rec.proved[name] = rec.proved.get(name, 0) + 1
-        rec.sample({"kernel": r["kernel"], "loop": r["loop"], "queries": r["queries"], "races": len(r["races"])})
+        rec.want_sample() and rec.sample({"kernel": r["kernel"], "loop": r["loop"], "queries": r["queries"], "races": len(r["races"])})
     rec.witnessed += 1
 
 
